@@ -302,7 +302,12 @@ json runStepTrace(const json& c, const InclParam& ip)
 	VATA::Util::Verif::Sink() = nullptr;
 	g_faSink = nullptr;
 	json evs = json::array();
-	for (const std::string& s : events) { evs.push_back(json::parse(s)); }
+	for (const std::string& s : events)
+	{
+		json e = json::parse(s);
+		if (e.contains("mode")) { continue; }       // step events of nested operations (trimming inside the preparation) carry a mode
+		evs.push_back(e);
+	}
 	json verdict;
 	verdict["e"] = "Verdict";
 	verdict["v"] = v;
